@@ -73,6 +73,8 @@ C09Stress ==
                + Chk("C09.lock.left-held", "stress", e.lockfree = 1)
                + (IF e.truncated = 0 THEN Chk("C09.protocol.lock-free-at-end", "stress", fin.holder = 0) ELSE 0)
                + Chk("C09.shared-object.goroutines-agree", << "stress", e.rounds, e.sharedDiffer >>, e.sharedDiffer = 0)
+               \* value calls on separate objects made by goroutines released together = their single-goroutine reference
+               + (IF Has(e, "valueDiffer") THEN Chk("C09.result.independent-of-concurrent-callers", << "stress", e.valueDiffer, e.valueWit >>, e.valueDiffer = 0) ELSE 0)
                + SumSeq(e.calls, LAMBDA c :
                    Chk("C09.result.independent-of-schedule", << "stress", c[1], c[2] >>, c[5] = 0 /\ c[3] = c[4])
                    + (IF Len(c) = 7 THEN Chk("C09.shared-object.read-only-accessors", << "stress", c[1] >>, c[6] = c[7]) ELSE 0))))
